@@ -288,6 +288,8 @@ func (c *Ctx) errorReporters() map[*core.Func]bool {
 	out := map[*core.Func]bool{}
 	if e := c.fn("parser.(*lexer).error"); e != nil {
 		out[e] = true
+		// when error() is itself a thin wrapper, what it hands over to is the recorder
+		out[c.effective(e)] = true
 	}
 	for changed := true; changed; {
 		changed = false
